@@ -54,8 +54,11 @@ def strip_late(desc):
 
 
 def materialise(ds):
+    import json
     rows = [list(r) for r in ds.res_iter]
-    return strip_late(ds.dp.descriptor), rows
+    # a descriptor is a JSON document: the round trip also breaks any aliasing between its parts (two resources
+    # sharing one field dict survive copy.deepcopy as shared objects)
+    return json.loads(json.dumps(strip_late(ds.dp.descriptor))), rows
 
 
 def run_stepwise(builders):
